@@ -29,6 +29,8 @@ FEED = J("feed", 20000, 1500000)
 
 CBOX = J("cbox", 20000, 1500000)
 
+INTRES = J("intres", 20000, 1000000)
+
 CP = {"SIM_CPARTY": "1"}
 C16_JOBS = []
 for _e in ("arc", "vec", "feed", "cbox"):
@@ -46,7 +48,7 @@ OBJ_CASTS = OBJ("casts", 20000, 1000000)
 OBJ_INTRES = OBJ("intres", 20000, 1000000)
 OBJ_MIXED = OBJ("mixed", 10000, 500000)
 
-ALL_JOBS = [ARC, VEC, CSTR, WAKER, FEED, CBOX] + C16_JOBS + [OBJ_CALLS, OBJ_LIFE, OBJ_CTX, OBJ_CASTS, OBJ_INTRES, OBJ_MIXED]
+ALL_JOBS = [ARC, VEC, CSTR, WAKER, FEED, CBOX, INTRES] + C16_JOBS + [OBJ_CALLS, OBJ_LIFE, OBJ_CTX, OBJ_CASTS, OBJ_INTRES, OBJ_MIXED]
 
 PROPS = {
     "C10": {
@@ -114,8 +116,8 @@ PROPS = {
         "real": OBJ_REAL, "stub": OBJ_STUB, "assumptions": OBJ_ASSUME + ["the property asks for exhaustive enumeration of a finite matrix; this family samples, and reports the matrix cells (group x enabled set x requested set x operation x container) actually hit: 1640 exist for the corpus groups"],
     },
     "C13": {
-        "jobs": [OBJ_INTRES],
-        "accept": lambda job, cls, site, msg: (cls in ("obj.result_mismatch", "obj.args_altered", "obj.call_count") and ("ir_" in site or "ira_" in site or "m_res" in site)) or cls.startswith("intres."),
+        "jobs": [OBJ_INTRES, INTRES],
+        "accept": lambda job, cls, site, msg: (cls in ("obj.result_mismatch", "obj.args_altered", "obj.call_count") and ("ir_" in site or "ira_" in site or "m_res" in site)) or cls.startswith("intres.") or job == "intres",
         "real": OBJ_REAL + ["cglue::result (IntError impls, into_int_out_result, from_int_result)"], "stub": OBJ_STUB, "assumptions": OBJ_ASSUME,
     },
 }
